@@ -359,7 +359,7 @@ def t8_board_dependent_rejections(ctx, F, rule="C11.T8"):
         term = hir.guards_term(hir.guards_of(r, body, symt) or [], skip=no_board)
         bad = []
         for side, other, prow, trow, orow in (("White", "Black", 4, 5, 6), ("Black", "White", 3, 2, 1)):
-            for f in (0, 3, 7):
+            for f in range(8):
                 for cap in (f - 1, f + 1):
                     if not 0 <= cap <= 7:
                         continue
